@@ -116,7 +116,9 @@ ConeC(e) == IF e.p = 1 THEN << <<"panic", FALSE>> >> ELSE
      <<"packed", Packed(e.cells)>>,
      <<"allsky", e.allsky = 0 \/ e.cells = AllSkyCells>>,
      <<"full_truthful", e.full_excess <= TolFull + e.rtol>>,
-     <<"tight", e.slack <= 0>> >>
+     <<"tight", e.slack <= 0>>,
+     (* beyond the listed properties (X00): cone_coverage_approx_flat is the flat view of the same coverage *)
+     <<"flat_variant", e.flat_same # 0>> >>
 
 (* a position's cell is covered: some cell whose closure contains the position (StarFace of its face) is covered *)
 Pow2(d) == 2^d
